@@ -176,6 +176,10 @@ def run(chk):
 
     from .. import kinds as _kinds
 
+    from .. import pipesim as _ps
+
+    _ps.report(chk, m, "R9", ['limit', 'select'], depth_quick=2, depth_thorough=3, floor=100)
+
     # ---- R8 the SQL Rename branch, interpreted on stub state (sqlsim)
     chk.rule("R8", "SQL rename interpreted on stub state: every visible column carries its new label (also when a hidden column has the same label), the selection is unchanged")
     from ..interp import PyRaise, SymbolicBranch
@@ -194,6 +198,7 @@ def run(chk):
     except PyRaise as p_:
         chk.ob("R8", sql, scfg.func, "sql Rename branch on stub state", False, f"the SQL Rename branch raises {p_.name}: {p_.msg}")
 
+    chk.rule("R9", "end-to-end simulation: LIMIT / OFFSET of the compiled statement equal the composition of the slices (slice of a slice) and the select list equals the visible columns, on every verb sequence up to the bound")
     chk.rule("R7", "rename only changes names: the cache resolves current names through the name maps, never through a Col object's creation-time .name")
     chk.floor("R7", "Col.name uses in the cache layer", _kinds.cache_name_discipline(chk, "R7"), 2)
 
